@@ -83,7 +83,8 @@ def gen_pipelines(rng, tier, npipes=None, big=False, pool=None, p_enc=0.4):
         r['stream'] = rng.weighted([(6, 'sim'), (2, 'bytesio'),
                                     (2, 'buffered')] if rng.chance(0.85)
                                    else [(1, 'minimal'), (1, 'gzip'),
-                                         (1, 'mmap'), (1, 'spooled')])
+                                         (1, 'mmap'), (1, 'spooled'), (1, 'file'),
+                                         (1, 'gzipfile')])
 
         if r['stream'] == 'buffered':
             r['buf'] = rng.choice([1, 2, 7, 64, 8192])
